@@ -8,10 +8,7 @@ from .fprog.model import walk_stmts, pathstr
 # internal=False: an internal procedure of the generator always reads host variables, which the (intra-procedural)
 # analysis does not see at the CALL (listed known finding of C26/C27, kept alive by its replay file) -- excluded by
 # construction so that every call-related miss the search reports is new
-# named_exit=False: `EXIT/CYCLE <construct-name>` is dropped / mis-parsed by the frontend (C01 finding, fix pending:
-# .scratch/fixes/C01-named-cycle-exit): the IR the analysis sees would not be the program that runs
-PROFILE = gen.profile(print=False, intent_none=True, comments=False, layout='nosemi', max_stmts=6, internal=False,
-                      named_exit=False)
+PROFILE = gen.profile(print=False, intent_none=True, comments=False, layout='nosemi', max_stmts=6, internal=False)
 EXCLUDED_BY_CONSTRUCTION = ('internal procedure that reads host variables not generated '
                             '(known: host-association-of-internal-procedure)')
 
